@@ -71,7 +71,9 @@ ChildBody(lvl, k1, k2, dyn) ==
     \o <<Text(<<32, 120, 32>>)>>
     \o (IF k2 = "absent" THEN <<>> ELSE <<BlockOf(lvl, "b2", k2)>>)
 \* the extends tag after other top-level definitions of the child
-ExtPlaces == {"afterblock", "aftermacro", "afterset", "afterimport", "last", "afterboth"}
+\* (wraplit / wrapvar: the child's blocks stand in branches of if tags that are never taken -- a literal condition, a variable:
+\* a block is defined where it is written, whether or not that place is rendered)
+ExtPlaces == {"afterblock", "aftermacro", "afterset", "afterimport", "last", "afterboth", "wraplit", "wrapvar"}
 ChildBodyExt(lvl, k1, k2, ext) ==
     LET x == <<Extends(LS(NT[TName(lvl + 1)]))>>
         b1 == IF k1 = "absent" THEN <<>> ELSE <<BlockOf(lvl, "b1", k1)>>
@@ -83,6 +85,8 @@ ChildBodyExt(lvl, k1, k2, ext) ==
       [] ext = "aftermacro"  -> <<Macro("zz", <<>>, <<Text(<<122>>)>>)>> \o x \o junk \o b1 \o b2
       [] ext = "afterset"    -> <<Set("zq", LI(1))>> \o x \o b1 \o junk \o b2
       [] ext = "afterimport" -> <<Import(LS(NT.n2), "L")>> \o x \o b1 \o b2 \o junk
+      [] ext = "wraplit"     -> x \o <<If1(LB(FALSE), b1), IfElse(LB(TRUE), junk, b2)>>
+      [] ext = "wrapvar"     -> x \o <<If1(Var("nosuchvar"), b1), IfElse(LI(1), junk, b2)>>
 
 \* top-level assignments along a chain of three: the most derived template's come first, a less derived template's after them
 SetChains == {[n |-> 2, ch |-> <<<<"vars", "absent">>, <<"vars", "vars">>>>, bk |-> <<"vars0", "vars0">>, lay |-> "top", dyn |-> FALSE, glob |-> TRUE, sets |-> ss]
